@@ -1,12 +1,12 @@
 \* C06: registry instance, three connections of A and one of B; all interleavings of
 \* admit / register / client frame / close / disconnect (by id, by key) / unregister / notify
-SPECIFICATION SpecRegistry
+SPECIFICATION SpecAdmin
 INVARIANT TypeOK RegistryShape NewestWins PacketsWellAddressed AtMostOnce FifoPerSender WireClean Isolation
 PROPERTY GoneOnlyOnEntryRemoval DisplacedIsTold PromotedIsTold StatusToTheRightOne AcceptedByActiveOnly ReadTouchesOnlySelf LeavesOnlyForOwnReasons
 CHECK_DEADLOCK FALSE
 CONSTANTS
-  Conns <- Reg_Conns
-  KeyOf <- Reg_KeyOf
+  Conns <- Reg3_Conns
+  KeyOf <- Reg3_KeyOf
   Keys = {"A", "B"}
   NoConn = "none"
   LateCancel = FALSE
